@@ -5,6 +5,7 @@
 # 1. confirms the seeded change in a scratch worktree (demo passes clean / fails patched; lib suite 84 pass + same 3 fail)
 # 2. applies it to /repo, runs ./check for the given properties, reverts /repo
 # 3. stores it under /verif/seeded/<name>/
+exec 9>/tmp/seed.lock; flock 9   # one seeded-change run at a time (they share .work/harness-alt)
 src=$1; name=$2; shift 2; props="$@"
 wt=/tmp/sv-$name
 base=${SEED_BASE:-a2078de}
